@@ -87,7 +87,8 @@ def build_grid(desc, table=None):
     kw = {}
     if desc["rule_spelling"] == "grid":
         kw = {"boundary": dict(desc["rule"]), "fill_value": dict(desc["fill"])}
-    g = Grid(ds, coords=cm, face_connections={"face": t}, periodic=False, autoparse_metadata=False, **kw)
+    t_listed = linktable.listed_in_order(t, desc["shuffle_seed"]) if desc["shuffle_seed"] % 2 else t
+    g = Grid(ds, coords=cm, face_connections={"face": t_listed}, periodic=False, autoparse_metadata=False, **kw)
     return ds, g, cm, t
 
 
